@@ -84,6 +84,18 @@ Definition run_cubic_edge (l : list Z) : list Z :=
   | _ => [-3]
   end.
 
+(* args: shift <builder ops> -> path_cubics_exact (2 no cubic, 1 every cubic edge ends on the row of its last point, 0 some
+   edge is lengthened by the pin; -8 the path does not build): the hypothesis of C02_cubic_path_fill_spec, evaluated *)
+Definition run_cubics_exact (l : list Z) : list Z :=
+  match l with
+  | sh :: ops =>
+      match finish (run_ops push_path from_points (S (length ops)) new_builder ops) with
+      | None => [-8]
+      | Some p => [CurveFill.path_cubics_exact p sh]
+      end
+  | _ => [-3]
+  end.
+
 (* search aid: args x0 y0 .. x3 y3 (bit patterns) shift -> 1 when a y-monotone piece of the cubic needs CubicEdge's pin *)
 Definition run_cubic_pin (l : list Z) : list Z :=
   match l with
